@@ -1,14 +1,15 @@
 #!/bin/bash
 # selftest.sh [pattern] : apply every change under mutants/ (own seeded property-breaking changes) to a scratch worktree of
 # /repo outside /repo and /verif, run the repository's tests there, run the corresponding quick check against it and
-# record whether it reports a VIOLATION. Results go to mutants/RESULTS.tsv. Scratch worktrees are removed after each step.
+# record whether it reports a VIOLATION. Results go to mutants/RESULTS.tsv (rows of mutants not matched by the pattern are
+# kept). Scratch worktrees are removed after each step. SELFTEST_JOBS (default 4) mutants run at a time.
 set -u
 V="$(cd "$(dirname "${BASH_SOURCE[0]}")" && pwd)"
 pat="${1:-}"
 out="$V/mutants/RESULTS.tsv"
-tmp="$(mktemp)"
-printf "mutant\tproperty\trepo_tests\tdetected\tviolation_keys\n" > "$tmp"
-for m in "$V"/mutants/*${pat}*.diff; do
+dir="$(mktemp -d)"
+one() {
+  m="$1"; V="$2"; dir="$3"
   name="$(basename "$m" .diff)"
   id="${name%%-*}"
   log="$(timeout 1500 "$V/tools/mutant.sh" -t "$m" "$id" 2>&1)"
@@ -16,6 +17,21 @@ for m in "$V"/mutants/*${pat}*.diff; do
   det="no"; echo "$log" | grep -q "exit=1" && det="yes"
   echo "$log" | grep -q "exit=2" && det="build-failure"
   wt_keys="$(echo "$log" | grep -o 'key=[^ ]*' | sort -u | head -4 | tr '\n' ' ')"
-  printf "%s\t%s\t%s\t%s\t%s\n" "$name" "$id" "$tests" "$det" "$wt_keys" | tee -a "$tmp"
-done
-mv "$tmp" "$out"
+  printf "%s\t%s\t%s\t%s\t%s\n" "$name" "$id" "$tests" "$det" "$wt_keys" | tee "$dir/$name.row"
+}
+export -f one
+ls "$V"/mutants/*${pat}*.diff | xargs -P "${SELFTEST_JOBS:-4}" -I{} bash -c 'one "$@"' _ {} "$V" "$dir"
+{
+  printf "mutant\tproperty\trepo_tests\tdetected\tviolation_keys\n"
+  {
+    cat "$dir"/*.row 2>/dev/null
+    # keep earlier rows of mutants that were not re-run and still exist
+    if [ -f "$out" ]; then
+      tail -n +2 "$out" | while IFS=$'\t' read -r name rest; do
+        [ -f "$dir/$name.row" ] || { [ -f "$V/mutants/$name.diff" ] && printf "%s\t%s\n" "$name" "$rest"; }
+      done
+    fi
+  } | sort
+} > "$out.new" && mv "$out.new" "$out"
+rm -rf "$dir"
+awk -F'\t' 'NR>1{n++; if($4=="yes")d++; if($3=="pass")p++} END{printf "mutants=%d detected=%d pass_repo_tests=%d\n", n, d, p}' "$out"
